@@ -44,8 +44,8 @@ static inline double c_abs(cplx z)
 }
 static inline double d_abs(double x) { return x < 0 ? -x : x; }
 #else
-double __CPROVER_uninterpreted_dabs(double);
-static inline double c_abs(cplx z) { return __CPROVER_uninterpreted_cabs(z.re, z.im); }
-static inline double d_abs(double x) { return __CPROVER_uninterpreted_dabs(x); }
+static inline double d_abs(double x) { return d_frombits(d_bits(x) & ~D_SIGN); }
+/* |z| depends only on |re| and |im| (hypot) */
+static inline double c_abs(cplx z) { return __CPROVER_uninterpreted_cabs(d_abs(z.re), d_abs(z.im)); }
 #endif
 #endif
